@@ -2,6 +2,7 @@ package worlds
 
 import (
 	"context"
+	"errors"
 	"fmt"
 	"time"
 
@@ -47,6 +48,16 @@ func (h *recHandler) HandlePacket(pc *proto.PacketContext) {
 	if len(pc.Payload) >= 2 && pc.Payload[1] == 0xEE {
 		h.panics++
 		h.run.Probe("handler_panic")
+		if len(pc.Payload) >= 3 {
+			switch pc.Payload[2] % 4 {
+			case 1:
+				panic("handler gave up") // a string, as gate's own code panics in places
+			case 2:
+				panic(fmt.Errorf("handler error %d", pc.Payload[2]))
+			case 3:
+				panic(42)
+			}
+		}
 		var m map[string]int
 		m["boom"] = 1 // nil map write: a genuine runtime panic
 	}
@@ -72,6 +83,12 @@ func runC44(r *Run) {
 	h1 := &recHandler{name: "h1", seq: &seq, run: r}
 	h2 := &recHandler{name: "h2", seq: &seq, run: r}
 	conn.SetActiveSessionHandler(state.Play, h1)
+	// login / server switch / configuration run with auto-reading off: the read loop is
+	// parked and cannot notice a dead peer, only a failing write can
+	noAutoRead := r.W.Pick(4) == 3
+	if noAutoRead {
+		conn.SetAutoReading(false)
+	}
 
 	// write failure fault: the k-th byte written by gate fails
 	if r.F.Pick(4) == 3 {
@@ -184,7 +201,20 @@ func runC44(r *Run) {
 		})
 	}
 	_ = anyClose
-	why := s.RunUntil(5*time.Second, func() bool { return actorsDone == nActors && peerDone && (loopDone || peerEnd == 0) })
+	why := s.RunUntil(5*time.Second, func() bool {
+		return actorsDone == nActors && peerDone && (loopDone || peerEnd == 0 || noAutoRead)
+	})
+	if noAutoRead && !r.Failed() && why != "steps" {
+		// a write that failed for any reason other than "already closed" must have closed
+		// the connection (the parked read loop cannot)
+		for _, w := range writes {
+			if w.err != nil && !errors.Is(w.err, netmc.ErrClosedConn) && !netmc.Closed(conn) {
+				r.Fail("write-error-left-connection-open", "no-auto-read", "WritePacket failed with %v while auto-reading was off, and the connection is still open (Disconnected ran %d times)", w.err, h1.disconnected+h2.disconnected)
+				return
+			}
+		}
+		_ = conn.Close() // let the parked loop end
+	}
 	// cool-down: let the peer go away so that the read loop must end
 	if !r.Failed() {
 		_ = peer.Close()
@@ -225,7 +255,7 @@ func runC44(r *Run) {
 		r.Probe("panic_contained")
 	}
 	// without closers and write failures every frame must have been handled
-	if len(closes) == 0 && peerEnd != 2 {
+	if len(closes) == 0 && peerEnd != 2 && !noAutoRead {
 		wfail := r.Net.WriteFailures > 0
 		for _, w := range writes {
 			if w.err != nil {
